@@ -221,3 +221,45 @@ def c09_mtx(ctx, case):
     ctx.nontrivial(m >= 2 and gen.is_nonconstant(x))
     ctx.check(X.shape == exp.shape, "corrmtx(%s) shape %s, expected %s" % (meth, X.shape, exp.shape))
     ctx.close(X.astype(complex), exp, "corrmtx(%s) entries" % meth, rtol=0, atol=0)
+
+
+# ---- long records (size-dependent code paths) --------------------------------
+@st.composite
+def long_case(draw):
+    cplx_x = draw(st.booleans())
+    n = draw(st.integers(513, 1200))
+    x = draw(gen.signal(dtype="complex" if cplx_x else "real", kinds=("noise", "tones", "int"), n=n))
+    mode = draw(st.sampled_from(["auto", "cross_equal", "cross_shorter_y", "cross_shorter_x"]))
+    y = None
+    if mode != "auto":
+        cy = draw(st.booleans())
+        ny = n if mode == "cross_equal" else draw(st.integers(3, n - 1))
+        y = draw(gen.signal(dtype="complex" if cy else "real", kinds=("noise", "tones", "int"), n=ny))
+        if mode == "cross_shorter_x":
+            x, y = y, x
+    return {"x": x, "y": y, "maxlags": draw(st.integers(0, 6)),
+            "norm": draw(st.sampled_from(["biased", "unbiased", None] + (["coeff"] if y is None else [])))}
+
+
+@sub("C09.long", strategy=long_case(), quick=120, thorough=4000, shards_quick=2,
+     doc="records of 513..1200 samples (complex and real, auto and cross, unequal lengths): CORRELATION and xcorr vs the lag sums, maxlags <= 6")
+def c09_long(ctx, case):
+    x = gen.realise(case["x"])
+    y = gen.realise(case["y"]) if case["y"] else None
+    N = max(len(x), len(y) if y is not None else 0)
+    L, norm = case["maxlags"], case["norm"]
+    yy = x if y is None else y
+    exp = np.array([_norm(ref.lagsum(x, yy, k), k, N, norm, x) for k in range(L + 1)])
+    bound = float(np.linalg.norm(x) * np.linalg.norm(yy))
+    bound = bound / N if norm == "biased" else (1.0 if norm == "coeff" else bound)
+    got = spectrum.CORRELATION(x, y, maxlags=L, norm=norm)
+    ctx.cls(gen.describe(case["x"]), "auto" if y is None else ("equal" if len(y) == len(x) else "unequal"), "norm=%s" % norm)
+    ctx.nontrivial(L >= 1)
+    ctx.check(len(got) == L + 1, "CORRELATION returned %d values for maxlags=%d" % (len(got), L))
+    ctx.close(np.asarray(got, dtype=complex), exp, "CORRELATION vs lag sums on a long record (N=%d, norm=%s)" % (N, norm),
+              rtol=1e-9, atol=1e-11 * bound)
+    if y is None or len(y) == len(x):
+        g2, lags = spectrum.xcorr(x, y, maxlags=L, norm=norm)
+        ctx.check(list(lags) == list(range(-L, L + 1)), "xcorr lags on a long record")
+        ctx.close(np.asarray(g2[L:], dtype=complex), exp, "xcorr vs lag sums on a long record (N=%d, norm=%s)" % (N, norm),
+                  rtol=1e-9, atol=1e-11 * bound)
